@@ -837,6 +837,17 @@ func c15Run(c core.Case) core.Result {
 	if msg := c15PrintLaw(vals); msg != "" {
 		return core.Violation("printed", msg)
 	}
+	if c.Fam == "int" {
+		// two numeric strings compare as the numbers they spell (also when their text orders the other way)
+		n, _ := new(big.Int).SetString(c.Args[0], 10)
+		if n.IsInt64() && n.Int64() > -1000000 && n.Int64() < 1000000 {
+			a, b := n.String(), new(big.Int).Sub(n, big.NewInt(1)).String()
+			out, err, pan := tryExec(c15CoreEnvGet(), "{{ a > b ? 'y' : 'n' }}{{ a >= b ? 'y' : 'n' }}{{ b < a ? 'y' : 'n' }}{{ b <= a ? 'y' : 'n' }}{{ a < b ? 'y' : 'n' }}{{ sa > b ? 'y' : 'n' }}", map[string]stick.Value{"a": a, "b": b, "sa": stick.NewSafeValue(a, "html")})
+			if pan != "" || err != nil || out != "yyyyny" {
+				return core.Violation("numeric-string", fmt.Sprintf("with a = %q and b = %q, {{ a > b }}{{ a >= b }}{{ b < a }}{{ b <= a }}{{ a < b }}{{ safe(a) > b }} give %q (%v %s), want yyyyny", a, b, out, err, pan))
+			}
+		}
+	}
 	return res
 }
 
